@@ -427,6 +427,32 @@ def tile3_is_cause(api, arch, op_i, op_o):
         return False
 
 
+def tile3_blockdep_cause(api, arch, A, B):
+    """True when calc_blockdep(A, B) becomes smaller once get_address_ranges reports tile 3 of operands that use tiles
+    0, 1 and 3 (the module attribute is replaced for the duration of this one call and restored)"""
+    from ethosu.vela import register_command_stream_util as u
+    orig = u.get_address_ranges
+
+    def fixed(fm):
+        r = orig(fm)
+        if tiles_013(fm):
+            r = list(r)
+            r[3] = u.get_address_range(fm, u.get_strides(fm), fm.tiles.height_1, fm.tiles.width_0, 0, fm.shape.height - 1,
+                                       fm.shape.width - 1, fm.shape.depth - 1)
+        return r
+    try:
+        k0 = u.calc_blockdep(arch, A, B)
+        u.get_address_ranges = fixed
+        try:
+            k1 = u.calc_blockdep(arch, A, B)
+        finally:
+            u.get_address_ranges = orig
+        return k1 < k0
+    except Exception:
+        u.get_address_ranges = orig
+        return False
+
+
 def gen_oplist(rng, api, acc, arch):
     """a list of DMA + block operations over few shared buffers; returns (ops, description)"""
     from ethosu.vela.register_command_stream_util import BASE_PTR_INDEX_MEM2MEM
@@ -434,7 +460,7 @@ def gen_oplist(rng, api, acc, arch):
     lay = rng.choice(["NHWC", "NHCWB16"])
     slots = [0x0, 0x4000, 0x8000, 0x10000, 0x18000, 0x20000]
     wslots = [0x40000, 0x40400, 0x40800]
-    h, w, d = rng.choice([(4, 8, 16), (8, 8, 8), (6, 10, 32), (3, 16, 16), (16, 16, 16), (5, 7, 24)])
+    h, w, d = rng.choice([(4, 8, 16), (8, 8, 8), (6, 10, 32), (3, 16, 16), (16, 16, 16), (5, 7, 24), (12, 2, 16), (9, 3, 8), (24, 4, 8)])
     ops, desc = [], []
     lut_addr = arch.shram_lut_address
     tiled = rng.random() < 0.5
@@ -496,6 +522,22 @@ def gen_oplist(rng, api, acc, arch):
                 od = rng.choice([8, 16]) if kind == "conv" else d
                 op.ifm = fm_at(src, ih, iw, d, tl(src, ih, iw))
                 op.ofm = fm_at(dst, oh, ow, od, tl(dst, oh, ow))
+                t_ = op.ifm.tiles
+                if tiled and t_.width_0 == iw and t_.height_0 < ih and rng.random() < 0.7:
+                    # a producer that has just written one of the two row tiles of this IFM (rolling-buffer pattern)
+                    upper = rng.random() < 0.5
+                    ph = t_.height_0 if upper else ih - t_.height_0
+                    prod = api.NpuElementWiseOperation(api.NpuElementWiseOp.ABS)
+                    prod.ifm = fm_at(rng.choice(slots), ph, iw, d)
+                    prod.ofm = fm_at(t_.addresses[0] if upper else t_.addresses[2], ph, iw, d)
+                    try:
+                        pc = api.npu_find_block_configs(prod, acc)
+                        prod.block_config = rng.choice(pc[:6])
+                        ops.append(prod)
+                        desc.append("producer of %s tile: ew ->%#x (%d rows) blk %s" % ("upper" if upper else "lower", prod.ofm.tiles.addresses[0], ph,
+                                                                                   tuple(prod.block_config)))
+                    except Exception:
+                        pass
                 if kind in ("conv", "dw"):
                     wa = rng.choice(wslots)
                     op.weights = [api.NpuAddressRange(1, wa, 0x100)] * arch.ncores
@@ -517,7 +559,9 @@ def gen_oplist(rng, api, acc, arch):
             ops.append(op)
             last_ofm = dst
             t3 = any(tiles_013(f) for f in (op.ifm, op.ifm2, op.ofm))
-            desc.append("%s %#x->%#x%s%s" % (kind, src, dst, " lut" if op.activation else "",
+            desc.append("%s %#x->%#x%s%s%s" % (kind, src, dst, " lut" if op.activation else "",
+                                             (" k%s pad%s blk%s" % ((op.kernel.width, op.kernel.height, op.kernel.stride_x, op.kernel.stride_y),
+                                                                    tuple(op.padding), tuple(op.block_config))) if op.kernel else " blk%s" % (tuple(op.block_config),),
                                            " tiles(ifm %s ofm %s)%s" % (tuple(op.ifm.tiles), tuple(op.ofm.tiles), " [tiles 0,1,3]" if t3 else "")
                                            if tiled else ""))
     return ops, desc
@@ -858,6 +902,9 @@ def run(tier):
             if why:
                 if pair and pair[1] is not None:
                     t3 = tile3_is_cause(api, archs[a], ops[pair[0]], ops[pair[1]])
+                elif pair and o[2] < 0 <= o[3]:
+                    prevs = [j for j in range(o[3]) if not isinstance(ops[j], api.NpuDmaOperation)]
+                    t3 = bool(prevs) and tile3_blockdep_cause(api, archs[a], ops[prevs[-1]], ops[o[3]])
                 else:
                     t3 = False
                 key = {"kind": "api_stream", "accelerator": a.name, "n_ops": len(ops), "why": why[:40]}
